@@ -66,6 +66,12 @@ def _configs(tier):
                 out.append(('bootstrap_sample_pattern', 2, 4, None, pdn, cont, src))
                 if pdn in ('index', 'cid'):
                     out.append(('bootstrap_sample', 2, 4, 'index', pdn, cont, src))
+    # the same object before and after an in-place append
+    for cont in ['list', 'ndarray']:
+        for rd in RDM_GROUPINGS:
+            out.append(('bootstrap_sample_rdm', 3, 3, rd, None, cont, 'appended'))
+        for rd, pdn in (('index', 'index'), ('rid', 'cid'), ('rname', 'name')):
+            out.append(('bootstrap_sample', 3, 3, rd, pdn, cont, 'appended'))
     return out
 
 
@@ -125,6 +131,20 @@ def _execute(cfg, env):
     if src == 'fresh':
         rdms = selfdesc.build(rids, cids, container=cont, rdm_desc=RD, pat_desc=PD)
         model = selfdesc.build([9], cids, container=cont, pat_desc=PD)
+    elif src == 'appended':
+        # a history on ONE object: the routine is called once (default draws), the object then grows
+        # in place by an appended RDM, and the explored call follows - nothing the first call may have
+        # left on the object may describe the old stack
+        rdms = selfdesc.build(rids[:-1], cids, container=cont, rdm_desc=RD, pat_desc=PD)
+        model = selfdesc.build([9], cids, container=cont, pat_desc=PD)
+        with rngenv.installed(rngenv.RngEnv(choice.Env([]))):
+            if routine == 'bootstrap_sample':
+                B.bootstrap_sample(rdms, rdm_descriptor=rd, pattern_descriptor=pdn)
+            elif routine == 'bootstrap_sample_rdm':
+                B.bootstrap_sample_rdm(rdms, rdm_descriptor=rd)
+            else:
+                B.bootstrap_sample_pattern(rdms, pattern_descriptor=pdn)
+        rdms.append(selfdesc.build(rids[-1:], cids, container=cont, rdm_desc=RD, pat_desc=PD))
     elif src == 'subset':
         full = list(range(n_cond + 2))
         rdms = selfdesc.build(rids, full, container=cont, rdm_desc=RD, pat_desc=PD).subset_pattern('cid', cids)
